@@ -1035,7 +1035,7 @@ func runTicker(r *vhlib.Rng) tickerRes {
 func MainC12() {
 	o := vhlib.ParseOpts()
 	rng := vhlib.NewRng(o.Seed)
-	w := vhlib.NewWriter(o.Out, "From VF Require Import Common.Base C12.Model C12.Check.\nLocal Open Scope Z_scope.", "case", "mismatches", 150)
+	w := vhlib.NewWriter(o.Out, "From VF Require Import Common.Base C12.Model C12.Race C12.Check.\nLocal Open Scope Z_scope.", "case", "mismatches", 150)
 
 	nTraces, nTick, par := 2400, 32, 64
 	if o.Thorough() {
@@ -1126,6 +1126,12 @@ func MainC12() {
 		w.Case(fmt.Sprintf("CTicker %s %s %s", vhlib.Nat(t.expected), vhlib.Nat(t.observed), vhlib.Nat(t.lost)),
 			"ticker", true, []string{"Count-after-10-intervals"}, t.detail)
 	}
+	// concurrent race rounds (race.go)
+	nBatches := 40
+	if o.Thorough() {
+		nBatches = 400
+	}
+	emitRaces(w, rng.Fork(), nBatches, 48)
 	defDist := map[string]int{}
 	for _, pl := range plans {
 		key := durStr(pl.def)
@@ -1144,5 +1150,5 @@ func MainC12() {
 	w.Notes["steps_total"] = totalSteps
 	w.Notes["steps_with_a_deadline_inside_the_call_bracket"] = windowSteps
 	w.Notes["traces_with_no_deadline_inside_any_bracket(decided)"] = decidedTraces
-	w.Close(o, "one case = one trace of 8..25 API calls on a fresh cache (keys 0..3, every stored value unique), each call bracketed by two wall-clock readings (validated against the monotonic clock; traces with a clock step are dropped and counted in notes) with the member map and deadline index dumped after it; distinct = distinct case terms (always, since instants differ); non-trivial = at least 8 steps and some timed entry was stored; plus one case per real-ticker run (10 ms sentinel)")
+	w.Close(o, "one case = one trace of 8..25 API calls on a fresh cache (keys 0..3, every stored value unique), each call bracketed by two wall-clock readings (validated against the monotonic clock; traces with a clock step are dropped and counted in notes) with the member map and deadline index dumped after it; distinct = distinct case terms (always, since instants differ); non-trivial = at least 8 steps and some timed entry was stored; plus one case per real-ticker run (10 ms sentinel); plus one CRace case per concurrent race round (one key of a shared cache: expired unevicted entry, getters and writers released together, epilogue read) and one Count/Export case per race batch")
 }
